@@ -120,22 +120,45 @@ def case_text(cid: str, case: dict, assigns=None) -> str:
     return "\n".join(L) + "\n"
 
 
-def run(cases: list[tuple[str, dict, list | None]], timeout=600) -> dict[str, dict]:
-    """cases: (id, case, assigns or None). Returns id -> driver reply."""
+def _run_once(cases, timeout, budget):
     exe = BUILD / "strl_driver"
     if not exe.exists():
         raise CxxFailure("strl_driver not built")
     text = "".join(case_text(cid, c, a) for cid, c, a in cases)
     env = dict(os.environ)
-    env["TETRISCHED_LOGGING_DIR"] = str(BUILD / "logs")
-    p = subprocess.run([str(exe)], input=text, stdout=subprocess.PIPE, stderr=subprocess.PIPE, text=True, timeout=timeout, cwd=str(BUILD), env=env)
+    # ScopeTimer / Logger append to files in this directory; a directory that does not exist disables them
+    env["TETRISCHED_LOGGING_DIR"] = str(BUILD / "no-such-dir")
+    p = subprocess.run([str(exe), str(budget)], input=text, stdout=subprocess.PIPE, stderr=subprocess.PIPE, text=True, timeout=timeout, cwd=str(BUILD), env=env)
     out = {}
     for line in p.stdout.split("\n"):
         if line.startswith("@@ "):
-            d = json.loads(line[3:])
+            try:
+                d = json.loads(line[3:])
+            except json.JSONDecodeError:
+                continue  # a child killed in the middle of its reply
             out[d["case"]] = d
+    return p, out
+
+
+def run(cases: list[tuple[str, dict, list | None]], watchdog=False, timeout=60, budget=3) -> dict[str, dict]:
+    """cases: (id, case, assigns or None). Returns id -> driver reply.
+
+    Fast mode runs the whole batch in one process. If that process crashes or
+    does not come back (a loop inside the library), or when `watchdog` is set,
+    every case runs in a forked child with a wall-clock budget and the reply of
+    a failing case is {"err": "TIMEOUT: …"} / {"err": "CRASH: …"} (forking costs
+    ~10 ms per case here, hence not the default)."""
+    if not cases:
+        return {}
+    if not watchdog:
+        try:
+            p, out = _run_once(cases, timeout, 0)
+            if p.returncode == 0 and len(out) == len(cases):
+                return out
+        except subprocess.TimeoutExpired:
+            pass
+    p, out = _run_once(cases, 600 + budget * len(cases), budget)
     if p.returncode != 0 or len(out) != len(cases):
-        # a crash (segfault / abort) inside the library: find the first case without a reply
         missing = [cid for cid, _, _ in cases if cid not in out]
         raise CxxFailure(f"strl_driver rc={p.returncode}, {len(out)}/{len(cases)} replies, first missing {missing[:1]}; stderr: {p.stderr[-500:]}")
     return out
